@@ -15,7 +15,7 @@ LEVEL = "exploration"
 RULE = (
     "documents = 0-14 pieces drawn from text runs (ASCII, non-ASCII, '<', '%', look-alike tags/markers/placeholders that "
     "do not match the grammar), </head> and </body> in whitespace/case variants in any order, css/js placeholders in all "
-    "emitted forms, marker comments of 4 real rendered components; each as str, SafeString, UTF-8 bytes (and latin-1 bytes "
+    "emitted forms, marker comments of 4 real rendered components (inline js/css and a Media file name contain non-ASCII text); each as str, SafeString, UTF-8 bytes (and latin-1 bytes "
     "when non-ASCII text is present), document and fragment, directly and through the middleware; distinct by (pieces, type, "
     "mode); non-trivial = at least one marker/placeholder/end tag present"
 )
@@ -53,8 +53,9 @@ class Env:
 
         class C08K0(Component):
             template = "<div>k0</div>"
-            js = "console.log('k0');"
-            css = ".k0 { color: red; }"
+            # non-ASCII in the inserted strings themselves: character offsets and byte offsets of the insertion points differ
+            js = "console.log('k0 \u2192 \u00fc');"
+            css = ".k0::before { content: '\u2192 \u65e5\u672c'; color: red; }"
 
         class C08K1(Component):
             template = "<div>k1</div>"
@@ -73,7 +74,7 @@ class Env:
 
             class Media:
                 js = ["shared.js"]
-                css = {"all": ["shared.css"], "print": ["k3p.css"]}
+                css = {"all": ["shared.css"], "print": ["k3p-\u00e9.css"]}
 
         self.classes = [C08K0, C08K1, C08K2, C08K3]  # comp_hash_mapping holds classes weakly
         self.markers = []
@@ -134,11 +135,16 @@ def render_pieces(env, pieces):
     return out
 
 
-def expected_outputs(env, pieces, mode):
-    """Set of acceptable outputs (1 or 2 elements)."""
+def expected_outputs(env, pieces, mode, doc_enc=None):
+    """Set of acceptable outputs (1 or 2 elements): str, or bytes when doc_enc is given (document pieces keep
+    the document's own encoding byte for byte, inserted tags are UTF-8)."""
     strs = render_pieces(env, pieces)
     marker_seq = [v[0] for kind, v in pieces if kind == "marker"]
     css, js = env.css_js(marker_seq, mode)
+    empty = ""
+    if doc_enc:
+        strs = [x.encode(doc_enc) for x in strs]
+        css, js, empty = css.encode("utf-8"), js.encode("utf-8"), b""
     has_css_ph = any(k == "cssph" for k, _ in pieces)
     has_js_ph = any(k == "jsph" for k, _ in pieces)
     outs = set()
@@ -152,10 +158,10 @@ def expected_outputs(env, pieces, mode):
             if kind == "marker":
                 continue
             if kind == "cssph":
-                buf.append(css if mode == "document" else "")
+                buf.append(css if mode == "document" else empty)
                 continue
             if kind == "jsph":
-                buf.append(js if mode == "document" else "")
+                buf.append(js if mode == "document" else empty)
                 continue
             if mode == "document":
                 if kind == "endhead" and i == first_head and not has_css_ph:
@@ -165,7 +171,7 @@ def expected_outputs(env, pieces, mode):
             buf.append(s)
         if mode == "fragment":
             buf.append(js)
-        outs.add("".join(buf))
+        outs.add(empty.join(buf))
     return outs
 
 
@@ -223,11 +229,12 @@ def run_case(env, rec, case):
         if typ in ("bytes", "latin1") and not isinstance(out, bytes):
             rec.violation("type-not-preserved", case, {"what": f"bytes in, {type(out).__name__} out"})
     if isinstance(out, bytes):
-        try:
-            out_s = out.decode(enc)
-        except UnicodeDecodeError:
-            rec.violation("output-not-decodable", case, {"what": repr(out)[:200]})
+        # judged byte for byte
+        exp_b = expected_outputs(env, pieces, mode, doc_enc=enc)
+        if out in exp_b:
             return "done"
+        out_s = out.decode("latin-1")
+        exp = {x.decode("latin-1") for x in exp_b}
     else:
         out_s = str(out)
     if out_s not in exp:
